@@ -36,8 +36,12 @@ PROPS["C12"] = {
                    "constructor/filter is wired to. TAB-SYM extracts the per-variant tables of SymbolSize from the typed "
                    "syntax tree (patterns pre-evaluated by rustc) and compares all 48 rows with ISO/IEC 16022 Table 7 / "
                    "ISO 21471 transcribed independently; ORD evaluates the Ord key for all 48 variants from those tables; "
-                   "PROV-FILTER checks the call structure of every constructor and filter.",
-    "trusted_base": ["rustc type checking / THIR construction", "std BTreeSet and RangeBounds::contains semantics",
+                   "PROV-FILTER folds every constructor, filter and query of SymbolList on concrete lists (the full, the default, a custom, a "
+                   "one-element and the empty list; for the dimension filters all six RangeBounds kinds with bounds around every catalogue "
+                   "width / height; for first_symbol_big_enough_for every n around every capacity) with BTreeSet modelled as a sorted "
+                   "duplicate-free list in the order ORD establishes, and compares the result with the specification computed from the "
+                   "extracted tables; the statement-shape wiring rules remain as the fallback for a function the folder has no model for.",
+    "trusted_base": ["rustc type checking / THIR construction", "rules/thirlib.py Folder: models of BTreeSet (sorted, duplicate-free) and RangeBounds::contains",
                      "reference/symbols.json (hand transcription of the standard, self-checked)", "rules/p_symbols.py"],
     "assumptions": ["default cargo features (extended_eci does not compile on the pinned tree)"],
 }
@@ -328,7 +332,7 @@ PROPS["C07"] = {
 PROPS["C05"] = {
     "level": "other",
     "engine": "panic-residue + dmx-facts",
-    "rules": [p_panic.residue_rule("decode"), p_panic.invariants, p_panic.div_guard, p_rs.gather_scatter, p_bitmap.dom_bitmap,
+    "rules": [p_panic.residue_rule("decode"), p_panic.invariants, p_panic.div_guard, p_rs.gather_scatter, p_bitmap.dom_bitmap, p_place.plc_index,
               p_panic.t_alt, p_panic.t_loops, p_codec.dec_mode, only(p_charset.tab_eci, ECI_DEC, "reader"), p_charset.tab_iso_traps],
     "explanation": "Decided per site; undecided sites are listed, never counted as proved. Panic part: the crate is compiled to LLVM IR "
                    "at opt-level 3 with overflow checks and debug assertions ON; every arithmetic overflow, bounds check, division by "
@@ -337,8 +341,10 @@ PROPS["C05"] = {
                    "attributed through core::panic::Location constants and must stay within the reviewed ledger (keyed by function and "
                    "kind, never by line): a new unproved site - or one that was provable until a guard was dropped - is a violation. "
                    "Ledger classes: table-invariant (re-checked here: INV), counter<=len, quotient-remainder, reviewed (one reason each), "
-                   "precondition (codeword vector of the symbol's length), std-internal, alloc-failure, and not-decided (Reed-Solomon "
-                   "index algebra, Annex F index validity) which are reported as UNDECIDED. DIV-GUARD classifies every GF division's "
+                   "precondition (codeword vector of the symbol's length), std-internal, alloc-failure, relies-on:<rule> (discharged by a rule of this "
+                   "run - PLC-INDEX: the traversal folded for the mapping matrix of all 48 sizes evaluates every index and every debug "
+                   "assertion of the placement without a trap and hands out Annex F's indices, and every map the crate builds has h*w "
+                   "entries), and not-decided (Reed-Solomon index algebra) which are reported as UNDECIDED. DIV-GUARD classifies every GF division's "
                    "divisor (GF::div's zero assertion is shared by all callers); the decision tables of read_eci / ISO-8859-9/-11 are "
                    "folded over all inputs and any trap is reported. Termination part: T-ALT (decode_ascii consumes >= 1 codeword, every "
                    "other decoder returns to ASCII, the reader only shrinks) and T-LOOPS (every loop in the scope is iterator-bounded, "
